@@ -35,8 +35,24 @@ type World struct {
 
 // Node is a keyed object (key field via struct tag).
 type Node struct {
-	Id int64  `graphql:"id,key"`
-	W  *World `graphql:"-"`
+	Id int64 `graphql:"id,key"`
+	// Grp is a second plain field (always GrpOf(Id)); federated services may
+	// declare it as part of their key set.
+	Grp int64  `graphql:"grp"`
+	W   *World `graphql:"-"`
+}
+
+// GrpOf is the value of Node.Grp for a node id.
+func GrpOf(id int64) int64 { return id%3 + 10 }
+
+// NodeKeyID and NodeKeyFull are the two federated key sets services may
+// declare for Node.
+type NodeKeyID struct {
+	Id int64
+}
+type NodeKeyFull struct {
+	Id  int64
+	Grp int64
 }
 
 // Leaf is an object keyed through Object.Key("id").
@@ -70,7 +86,7 @@ func NewWorld(seed uint64, n, m int) *World {
 	w := &World{Seed: seed, N: n, M: m}
 	w.nodes = make([]*Node, n+1)
 	for i := 1; i <= n; i++ {
-		w.nodes[i] = &Node{Id: int64(i), W: w}
+		w.nodes[i] = &Node{Id: int64(i), Grp: GrpOf(int64(i)), W: w}
 	}
 	w.leaves = make([]*Leaf, m+1)
 	for i := 1; i <= m; i++ {
